@@ -336,6 +336,183 @@ pub fn c14(cfg: &Cfg, rep: &mut Report) {
         }
         history_case(cfg, rep, cfg.case_seed(i), true);
     }
+    let big = cfg.get_usize("big_roundtrips", (cfg.cases / 100).max(if cfg.cases > 0 { 3 } else { 0 }));
+    for i in 0..big {
+        if rep.too_many() {
+            break;
+        }
+        c14_big(cfg, rep, cfg.case_seed(7_000_000 + i));
+    }
+}
+
+/// Round trips of big frameworks: 30 to 60 statements with random conditions (grounded interpretation known from
+/// the support-bounded oracle), or 64 to 90 statements of which one or two have a conjunction / disjunction chain
+/// over (nearly) all others as condition, i.e. diagrams more than 64 levels tall. Exported fresh or after the
+/// grounded interpretation has been computed; judged: numbering, roots, names, audit of the repaired tables,
+/// and the grounded interpretation of original, imported and rebuilt object (equal, and equal to the oracle's
+/// where it is available).
+fn c14_big(_cfg: &Cfg, rep: &mut Report, case_seed: u64) {
+    use oracle::F;
+    let mut rng = Rng::new(case_seed ^ 0xB14);
+    let tall = rng.chance(1, 2);
+    let (g, text, want_grounded): (oracle::gen::GenAdf, String, Option<Vec<Val>>) = if tall {
+        let n = rng.range(64, 90);
+        let mut ac: Vec<F> = (0..n)
+            .map(|i| match rng.below(5) {
+                0 => F::Top,
+                1 => F::Bot,
+                2 => F::Atom(i),
+                3 => F::not(F::Atom(rng.below(n))),
+                _ => F::Atom(rng.below(n)),
+            })
+            .collect();
+        for _ in 0..rng.range(1, 2) {
+            let s = rng.below(n);
+            let conj = rng.bool();
+            let mut f = if conj { F::Top } else { F::Bot };
+            for a in (0..n).rev() {
+                if a != s && !rng.chance(1, 12) {
+                    f = if conj { F::and(F::Atom(a), f) } else { F::or(F::Atom(a), f) };
+                }
+            }
+            ac[s] = f;
+        }
+        let g = oracle::gen::GenAdf { n, labels: (0..n).map(|i| format!("t{}", i)).collect(), ac, family: "tall" };
+        let text = g.canonical();
+        (g, text, None)
+    } else {
+        let (g, text, sem) = crate::sem::large_case(case_seed);
+        let (gr, _) = sem.grounded_rounds();
+        (g, text, Some(gr))
+    };
+    rep.evaluations += 1;
+    rep.count(if tall { "big_roundtrips_tall" } else { "big_roundtrips_random" }, 1);
+    rep.max("max_statements_in_a_roundtrip", g.n as u64);
+    let replay = |note: &str| json!({"property": "c14", "case_seed": case_seed.to_string(), "big_roundtrip": true, "tall": tall, "statements": g.n, "note": note,
+        "adf": if text.len() < 6000 { text.clone() } else { format!("{}...", text.chars().take(6000).collect::<String>()) }});
+    let o = match build(&text, Sort::None, false) {
+        Ok(o) => o,
+        Err(e) => {
+            let msg = e.describe();
+            if tall && cfg!(feature = "adhoccountmodels") && msg.contains("overflow") {
+                // With ad-hoc MODEL counting the store multiplies by 2^(depth difference) in machine words while it
+                // creates a node: a diagram of 64+ levels cannot even be built when overflow checks are on. There
+                // is no object to round-trip then (nothing for C14 to judge); as a difference between feature sets
+                // it belongs to C12, whose run of this monitor asks for it to be reported.
+                if _cfg.flag("for_c12") {
+                    rep.violation("tall-diagram-aborts:adhoccountmodels", format!("{} statements, a condition chained over nearly all of them: {}", g.n, msg), replay("build"));
+                } else {
+                    rep.count("tall_originals_that_cannot_be_built_with_adhoccountmodels", 1);
+                }
+                return;
+            }
+            rep.violation("build-failed", msg, replay("build"));
+            return;
+        }
+    };
+    let Some(perm) = perm_of(&o.names, &g) else {
+        rep.violation("names-not-a-permutation", "big round trip".into(), replay("names"));
+        return;
+    };
+    let mut orig = match guarded(SMALL_BUDGET * 20, || fresh_adf(&o, Backend::Native).expect("native")) {
+        Ok(a) => a,
+        Err(c) => {
+            rep.violation(&format!("history-start:{}", c.kind()), c.describe(), replay("compile"));
+            return;
+        }
+    };
+    let grounded_first = rng.bool();
+    let mut g0: Option<Vec<Term>> = None;
+    if grounded_first {
+        match guarded(SMALL_BUDGET * 20, || orig.grounded()) {
+            Ok(v) => g0 = Some(v),
+            Err(c) => {
+                rep.violation(&format!("history-call:{}", c.kind()), format!("grounded: {}", c.describe()), replay("grounded before export"));
+                return;
+            }
+        }
+    }
+    rep.max("max_nodes_at_export", orig.bdd.nodes.len() as u64);
+    let exported = guarded(SMALL_BUDGET * 20, || {
+        let s = serde_json::to_string(&orig).expect("export");
+        let mut a: Adf = serde_json::from_str(&s).expect("import");
+        a.fix_import();
+        let b = rebuild_like_server(&orig);
+        (a, b)
+    });
+    let (a, b) = match exported {
+        Ok(x) => x,
+        Err(c) => {
+            rep.violation(&format!("roundtrip:{}", c.kind()), format!("{} statements, tallest diagram {} levels: {}", g.n, orig.ac.iter().map(|t| orig.bdd.max_depth(*t)).max().unwrap_or(0), c.describe()), replay("export/import"));
+            return;
+        }
+    };
+    let mut counts = AuditCounts::default();
+    let mut arng = rng.fork(5);
+    let mut answers: Vec<(&str, Vec<Term>)> = Vec::new();
+    match guarded(SMALL_BUDGET * 20, || orig.grounded()) {
+        Ok(v) => {
+            if let Some(prev) = &g0 {
+                if *prev != v {
+                    rep.violation("answer-depends-on-history", "grounded interpretation of a big framework changed when asked again".into(), replay("grounded twice"));
+                    return;
+                }
+            }
+            answers.push(("original", v));
+        }
+        Err(c) => {
+            rep.violation(&format!("history-call:{}", c.kind()), format!("grounded: {}", c.describe()), replay("grounded"));
+            return;
+        }
+    }
+    for (name, mut obj) in [("serde", a), ("rebuild", b)] {
+        rep.count(&format!("roundtrips_{}", name), 1);
+        // (the original may have grown by the grounded call after the export: compare the exported prefix)
+        let len = obj.bdd.nodes.len();
+        if len > orig.bdd.nodes.len() || obj.bdd.nodes[..] != orig.bdd.nodes[..len] {
+            rep.violation(&format!("roundtrip-numbering:{}", name), format!("{} round trip changed the node table", name), replay(name));
+            return;
+        }
+        if obj.ac != orig.ac {
+            rep.violation(&format!("roundtrip-roots:{}", name), format!("{} round trip changed the root handles", name), replay(name));
+            return;
+        }
+        if *obj.ordering.names().read().unwrap() != o.names {
+            rep.violation(&format!("roundtrip-names:{}", name), "names differ".into(), replay(name));
+            return;
+        }
+        match harness(|| full_audit(&obj.bdd, g.n, &mut arng, &mut counts)) {
+            Ok(Ok(_)) => {}
+            Ok(Err(e)) => {
+                rep.violation(&format!("roundtrip-audit:{}", name), e, replay(name));
+                return;
+            }
+            Err(e) => rep.inconclusive.push(e),
+        }
+        match guarded(SMALL_BUDGET * 20, || obj.grounded()) {
+            Ok(v) => answers.push((name, v)),
+            Err(c) => {
+                rep.violation(&format!("history-call:{}", c.kind()), format!("grounded on the {} copy: {}", name, c.describe()), replay(name));
+                return;
+            }
+        }
+    }
+    let first = to_vals(&answers[0].1, &perm);
+    for (name, v) in &answers[1..] {
+        let got = to_vals(v, &perm);
+        rep.count("imported_answers_compared", 1);
+        if got != first {
+            rep.violation("imported-answer-differs", format!("grounded: original {} but {} copy {}", show_vals(&first), name, show_vals(&got)), replay(name));
+            return;
+        }
+    }
+    if let Some(want) = want_grounded {
+        if first != want {
+            rep.violation("history-answer-vs-oracle", format!("grounded of a big framework: {} but the least fixpoint is {}", show_vals(&first), show_vals(&want)), replay("oracle"));
+            return;
+        }
+    }
+    rep.nontrivial.insert(hash_str(&format!("bigrt{}", case_seed)));
 }
 
 pub fn history_case(cfg: &Cfg, rep: &mut Report, case_seed: u64, persistence: bool) {
